@@ -74,9 +74,147 @@ func fingerprints(c *Ctx) map[string]anchorFP {
 	return out
 }
 
+// fieldFingerprints: for every field of a struct of the library, its type and the functions that mention it (key
+// "field:<pkg>.<Struct>.<name>"); used to find a renamed field of core.JApiCore the way renamed functions are found.
+func fieldFingerprints(c *Ctx) map[string]anchorFP {
+	users := map[*types.Var]map[string]bool{}
+	for _, f := range c.libFns() {
+		if f.Decl == nil || f.Decl.Body == nil {
+			continue
+		}
+		name := prog.RawFuncName(f.Obj)
+		ast.Inspect(f.Decl.Body, func(n ast.Node) bool {
+			var fld *types.Var
+			switch x := n.(type) {
+			case *ast.SelectorExpr:
+				fld = fieldSel(f.Pkg, x)
+			case *ast.KeyValueExpr:
+				if id, ok := x.Key.(*ast.Ident); ok {
+					if v, ok := f.Pkg.TypesInfo.Uses[id].(*types.Var); ok && v.IsField() {
+						fld = v
+					}
+				}
+			}
+			if fld != nil && fld.Pkg() != nil && c.P.IsLibPkg(fld.Pkg()) {
+				if users[fld.Origin()] == nil {
+					users[fld.Origin()] = map[string]bool{}
+				}
+				users[fld.Origin()][name] = true
+			}
+			return true
+		})
+	}
+	out := map[string]anchorFP{}
+	for _, pk := range c.P.Lib {
+		scope := pk.Types.Scope()
+		for _, n := range scope.Names() {
+			tn, ok := scope.Lookup(n).(*types.TypeName)
+			if !ok {
+				continue
+			}
+			st, ok := tn.Type().Underlying().(*types.Struct)
+			if !ok {
+				continue
+			}
+			for i := 0; i < st.NumFields(); i++ {
+				fld := st.Field(i)
+				var us []string
+				for u := range users[fld] {
+					us = append(us, u)
+				}
+				sort.Strings(us)
+				out["field:"+pk.Types.Name()+"."+tn.Name()+"."+fld.Name()] = anchorFP{Sig: types.TypeString(fld.Type(), func(p *types.Package) string { return p.Name() }), Callers: us}
+			}
+		}
+	}
+	return out
+}
+
+// renamedField: the field of pkg.Struct that the pinned tree called `name`, when no field has that name any more:
+// same type, the most similar set of using functions (Jaccard >= 0.6, clear of the runner-up), a name the pinned
+// struct did not have.
+func (c *Ctx) renamedField(pkgName, structName, name string) *types.Var {
+	dir := os.Getenv("VERIF_DIR")
+	if dir == "" {
+		dir = "/verif"
+	}
+	ref := map[string]anchorFP{}
+	b, err := os.ReadFile(filepath.Join(dir, "tools", "reference", "anchors.json"))
+	if err != nil || json.Unmarshal(b, &ref) != nil {
+		return nil
+	}
+	prefix := "field:" + pkgName + "." + structName + "."
+	want, ok := ref[prefix+name]
+	if !ok {
+		return nil
+	}
+	cur := fieldFingerprints(c)
+	type cand struct {
+		name  string
+		score float64
+	}
+	var cands []cand
+	for k, fp := range cur {
+		if !strings.HasPrefix(k, prefix) || fp.Sig != want.Sig {
+			continue
+		}
+		if _, existed := ref[k]; existed {
+			continue
+		}
+		a := map[string]bool{}
+		for _, u := range want.Callers {
+			a[u] = true
+		}
+		inter, union := 0, len(a)
+		for _, u := range fp.Callers {
+			if p, ok := canonName(u); ok {
+				u = p
+			}
+			if a[u] {
+				inter++
+			} else {
+				union++
+			}
+		}
+		if union > 0 {
+			cands = append(cands, cand{strings.TrimPrefix(k, prefix), float64(inter) / float64(union)})
+		}
+	}
+	sort.Slice(cands, func(i, j int) bool { return cands[i].score > cands[j].score })
+	if len(cands) == 0 || cands[0].score < 0.6 || (len(cands) > 1 && cands[0].score-cands[1].score < 0.15) {
+		return nil
+	}
+	tn := c.P.LookupType(pkgName, structName)
+	if tn == nil {
+		return nil
+	}
+	st, _ := tn.Type().Underlying().(*types.Struct)
+	for i := 0; st != nil && i < st.NumFields(); i++ {
+		if st.Field(i).Name() == cands[0].name {
+			c.R.Assumptions = append(c.R.Assumptions, fmt.Sprintf("field %s.%s.%s of the pinned tree no longer exists; %s (same type, used by the same functions: similarity %.2f) is taken in its place", pkgName, structName, name, cands[0].name, cands[0].score))
+			return st.Field(i)
+		}
+	}
+	return nil
+}
+
+// canonName: the pinned name of a function that was recognised as renamed.
+func canonName(cur string) (string, bool) {
+	for f, p := range prog.Canon {
+		if prog.RawFuncName(f) == cur {
+			return p, true
+		}
+	}
+	return "", false
+}
+
 func init() {
 	dumpers["anchors"] = func(c *Ctx) {
-		b, _ := json.MarshalIndent(fingerprints(c), "", " ")
+		all := fingerprints(c)
+		for k, v := range fieldFingerprints(c) {
+			all[k] = v
+		}
+		b, _ := json.MarshalIndent(all, "", " ")
 		os.Stdout.Write(b)
 		fmt.Println()
 	}
